@@ -156,7 +156,21 @@ func (p *parsedFile) getFuncAST(f string, l int) (d *ast.FuncDecl, err error) {
 	return
 }
 
+// unparen strips the parentheses gofmt would remove, e.g. func (t (*T)) f(i (int)).
+func unparen(e ast.Expr) ast.Expr {
+	for {
+		p, ok := e.(*ast.ParenExpr)
+		if !ok {
+			return e
+		}
+		e = p.X
+	}
+}
+
 func name(n ast.Node) string {
+	if e, ok := n.(ast.Expr); ok {
+		n = unparen(e)
+	}
 	switch t := n.(type) {
 	case *ast.InterfaceType:
 		return "interface{}"
@@ -177,7 +191,7 @@ func name(n ast.Node) string {
 
 // fieldToType returns the type name and whether if it's an ellipsis.
 func fieldToType(f *ast.Field) (string, bool) {
-	switch arg := f.Type.(type) {
+	switch arg := unparen(f.Type).(type) {
 	case *ast.ArrayType:
 		if arg.Len != nil {
 			// Array.
@@ -214,7 +228,7 @@ func extractArgumentsType(f *ast.FuncDecl) ([]string, bool) {
 	if f.Recv != nil && len(f.Recv.List) == 1 {
 		// If it is an object receiver (vs a pointer receiver), its address is not
 		// printed in the stack trace so it needs to be ignored.
-		if _, ok := f.Recv.List[0].Type.(*ast.StarExpr); ok {
+		if _, ok := unparen(f.Recv.List[0].Type).(*ast.StarExpr); ok {
 			fields = append(fields, f.Recv.List[0])
 		}
 	}
